@@ -136,7 +136,7 @@ def run(ctx):
                 r.site('%s @%s [%s] := %s' % (fq, w[4], w[2][-30:], w[3][:80]))
             if not some:
                 return r.bad('writes', '`%s` no longer stores derived path keys' % fq)
-            gs = [g for g in GuardExtractor(body).guards() if 'PubKeyMismatch' in g.errs and g.rel == '!=' and g.idiom == 'branch']
+            gs = [g for g in GuardExtractor(body).guards() if 'PubKeyMismatch' in g.errs and g.rel == '!=' and g.idiom in ('branch', 'then_some')]
             if not gs:
                 return r.bad('guard-missing', '`%s` no longer compares the derived public key with the key in the tree (PubKeyMismatch)' % fq)
             kp = [bi for bi, t in body.calls_named(r'PathSecret::to_hpke_key_pair$')]
@@ -153,8 +153,11 @@ def run(ctx):
                     derived_side = g.lhs if oa == src else (g.rhs if ob == src else None)
                     other_side = g.rhs if oa == src else (g.lhs if ob == src else None)
                     if derived_side and derived_side.endswith(').1') and re.search(tree_key_rx, other_side):
-                        pass_blocks = [x for x in body.succs(g.block) if x != g.fail_block]
-                        if pass_blocks and body.dominates(pass_blocks[0], w[0]):
+                        if g.idiom == 'then_some':
+                            pass_blocks = [g.pass_block] if g.pass_block is not None else []
+                        else:
+                            pass_blocks = [x for x in body.succs(g.block) if x != g.fail_block]
+                        if pass_blocks and (body.dominates(pass_blocks[0], w[0]) or pass_blocks[0] == w[0]):
                             ok = True
                 if not ok:
                     r.bad('unverified-key', 'in `%s` a derived private key is stored without the matching public key having been compared with the tree '
@@ -171,6 +174,18 @@ def run(ctx):
     PP = 'Group::provisional_private_tree'
 
     def blank_none(P_):
+        # the sweep may live in the function itself or in a closure of it (`path.iter().enumerate().try_for_each(|(i, n)| ..)`)
+        top = P_.fn(PP)
+        last = None
+        for key in [top['key']] + P_.closures_of(top['key']):
+            last = blank_none_in(P_, key)
+            if last.sites and not last.violations:
+                return last
+            if key == top['key']:
+                first = last
+        return first
+
+    def blank_none_in(P_, PP):
         r = Res()
         ws = indexed_writes(P_, PP, r'secret_keys')
         fn = P_.fn(PP)
